@@ -57,6 +57,8 @@ def draw_world(rng, big=False):
     nulls = rng.random() < 0.6
     n = rng.randrange(6, 13)
     keys = [rng.pick(([NULL] if nulls else []) + [1, 2, 3, 4]) for _ in range(n)]
+    if rng.random() < 0.25:
+        keys = sorted(keys, key=lambda k: (k == NULL, k))      # rows already in group order (the group-sort permutation is the identity)
     kenc = rng.pick(["f64", "f64", "str", "M8", "cat"]) if nulls else rng.pick(["f64", "i64", "str", "cat", "catperm", "i32", "M8"])
     if kenc in ("str",) and keys[0] == NULL:
         keys[0] = 1
@@ -65,7 +67,7 @@ def draw_world(rng, big=False):
         kcont = rng.pick(["np", "series"])
     if kenc == "str" and kcont in ("pl",):
         kcont = "np"
-    return dict(keys=keys, kenc=kenc, kcont=kcont, venc=rng.pick(memory.VENCS), mkind=rng.pick(["none", "bool", "bool", "series", "pos", "slice"]),
+    return dict(keys=keys, kenc=kenc, kcont=kcont, venc=rng.pick(memory.VENCS), mkind=rng.pick(["none", "bool", "bool", "series", "pos", "posneg", "slice"]),
                 chunked=rng.random() < 0.35, seed=rng.randrange(10 ** 9))
 
 
@@ -91,7 +93,7 @@ def build(rng, tier):
     # 3. every method on every value container / mask kind (inputs intact, no aliasing)
     for m in memory.METHODS:
         for venc in memory.VENCS:
-            for mk in ["none", "bool", "series", "pos", "slice"]:
+            for mk in ["none", "bool", "series", "pos", "posneg", "slice"]:
                 if tier == "quick" and rng.random() < 0.75:
                     continue
                 w = draw_world(rng)
@@ -124,7 +126,7 @@ def run(tier):
         "(GBMemory: 4 caller inputs, logical codes/labels, 4 lazily filled caches; negative configurations: groups/key_count "
         "hand out their caches, a result that is a view of the values, an in-place write of keys/codes).  Real histories on one "
         "grouping object: one replay per transition of TLC's state graph (3 steps), every ordered pair of the 54 concrete methods "
-        "(call A, write through A's result by every ordinary route, call B, call A again), every method x 15 value containers x 5 "
+        "(call A, write through A's result by every ordinary route, call B, call A again), every method x 15 value containers x 6 "
         "mask kinds, random walks of 4..10 steps; keys over 7 containers x 7 dtypes, contiguous and chunked.  After every step "
         "the driver compares byte-level snapshots of all inputs, the logical codes/labels and every filled cache with a fresh "
         "grouping built from pristine inputs, computes np.shares_memory between the result and every buffer, and compares the "
